@@ -68,6 +68,14 @@ CLAIMS['C03'] = dict(
     note=('Exactly-once for the whole loop is the composition of these per-call facts (hand-made): an index leaves a shared range only inside a piece handed to exactly one thread. Not decided: victim '
           'selection, non-random-access iterators, termination, mutex/condvar semantics, the induction over the wake tree, runInternal. Trusted: mutual exclusion of work_mutex (C06), integer iterators.'))
 
+CLAIMS['C02'] = dict(
+    text=('Proof, per function, against the PtrLock contracts of C06: LockManagerBase::getOwner/tryAcquire, SimpleRuntimeContext::addToNhood/acquire/release and shouldLock: NEW_OWNER iff this call took the '
+          'owner bit by an acquire RMW on a word it observed free (then the word carries this context); ALREADY_OWNER only for a word carrying this context (re-acquisition is a no-op); FAIL/conflict '
+          'leaves word and list unchanged; a lockable enters the neighbourhood list exactly when newly owned; release publishes an unowned word with >= release; READ/WRITE lock, UNPROTECTED/PREVIOUS do not. '
+          'commitIteration (= cancelIteration) is a BOUNDED check: lists of length <= 4, every lockable released exactly once, list emptied.'),
+    note=('Step-level isolation only: the abort path of the executor (longjmp unwinding, push-buffer and per-iteration allocator reset) and serial equivalence are NOT decided. '
+          'Trusted: PtrLock contracts and the interference stub (C06), signalConflict does not return.'))
+
 NA = {
     'C01': 'schedule/worklist-policy property of deeply templated executors (histories of several threads); outside CBMC\'s C++ reach and not a per-call contract',
     'C07': 'relation between different executions (determinism across schedules/thread counts) of a ~1000-line template executor; no single-call contract expresses it',
